@@ -125,9 +125,6 @@ Fixpoint parse_ty_toks (fuel : nat) (toks : list tok) : option (ty * list tok) :
   end.
 
 (* keywords that are identifiers to the lexer but not names to Python *)
-Definition py_keywords : list str :=
-  [L "and"; L "as"; L "assert"; L "async"; L "await"; L "break"; L "class"; L "continue"; L "def"; L "del"; L "elif"; L "else"; L "except"; L "finally"; L "for"; L "from"; L "global"; L "if"; L "import"; L "in"; L "is"; L "lambda"; L "nonlocal"; L "not"; L "or"; L "pass"; L "raise"; L "return"; L "try"; L "while"; L "with"; L "yield"].
-
 Definition tok_is_keyword (t : tok) : bool :=
   match t with KId s => existsb (str_eqb s) py_keywords | _ => false end.
 
